@@ -57,7 +57,24 @@ type scriptOp struct {
 	Cut     int    `json:"cut"`     // partial: number of bytes written
 }
 
+type clientOp struct {
+	Op   string `json:"op"` // exec | reply | unsol | garbage | partial | close_out | close_in | close | settle
+	Run  string `json:"run"`
+	Kind string `json:"kind"`
+	Emit bool   `json:"emit"`
+}
+
+type faultSpec struct {
+	Kind  string `json:"kind"` // eof | ioerr | corrupt
+	At    int64  `json:"at"`   // byte offset of the server-to-client stream (after the hello unless Hello is set)
+	Hello bool   `json:"hello"`
+}
+
 type scenario struct {
+	Ops      []clientOp `json:"ops"`
+	Fault    *faultSpec `json:"fault"`
+	Version  int64      `json:"version"`
+	HelloBad string     `json:"hello_bad"` // "" | version | schema | garbage
 	Script   []scriptOp `json:"script"`
 	CutAt    int        `json:"cut_at"` // > 0: the byte stream of the script is cut at this offset, then EOF
 	Mode     string     `json:"mode"`
@@ -610,6 +627,10 @@ func (w *world) finish(res *result, wantClose bool) {
 
 func runScenario(sc scenario) (res *result) {
 	res = &result{ID: sc.ID, Results: map[string]execResult{}}
+	if sc.Mode == "client" {
+		runClientScenario(sc, res)
+		return
+	}
 	mode := sched.Free
 	if sc.Mode == "replay" {
 		mode = sched.Controlled
@@ -636,6 +657,8 @@ func runScenario(sc scenario) (res *result) {
 	switch sc.Mode {
 	case "server":
 		w.serverSession(res)
+	case "client":
+		// handled by runClientScenario (no real server)
 	case "replay":
 		// the server's idle goroutines wait at their steady gates; follow the schedule
 		w.s.Reset()
@@ -1001,6 +1024,380 @@ func (w *world) serverSession(res *result) {
 			}
 		}
 	}
+}
+
+// ------------------------------------------------------------------ C08: real client against a scripted, breaking server stream
+type fakeServer struct {
+	w      *world
+	mu     sync.Mutex
+	cond   *sync.Cond
+	got    map[string]int
+	inEOF  bool
+	legit  map[string]bool // runs for which an intact work-done was written
+	sent   int64           // bytes written to the client after the hello
+	stream []byte          // everything written after the hello (for the independent decode)
+	frames [][]byte        // the same, message by message
+}
+
+func runClientScenario(sc scenario, res *result) {
+	w := &world{sc: sc, res: map[string]*execResult{}, sigTo: map[string]chan schema.Input{},
+		sigFrm: map[string]chan schema.Input{}, sigStop: map[string]chan struct{}{}, sigSenders: map[string][]chan struct{}{},
+		closeC: make(chan error, 1), spawned: map[string]bool{}}
+	w.s = sched.New(sched.Free)
+	w.s.Classify = classify
+	atp.VerifHook = w.s.Hook
+	defer func() { atp.VerifHook = nil }()
+	w.c2s = sched.NewPipe("c2s", w.s, 0)
+	w.s2c = sched.NewPipe("s2c", w.s, 1<<20) // the fake server's writes never block
+	fs := &fakeServer{w: w, got: map[string]int{}, legit: map[string]bool{}}
+	fs.cond = sync.NewCond(&fs.mu)
+	version := sc.Version
+	if version == 0 {
+		version = 3
+	}
+	enc := func(v any) []byte {
+		b, err := cbor.Marshal(v)
+		if err != nil {
+			panic(err)
+		}
+		return b
+	}
+	// hello
+	plug := w.plugin()
+	ser, err := plug.SelfSerialize()
+	if err != nil {
+		res.FollowErr = "SelfSerialize: " + err.Error()
+		return
+	}
+	var hello []byte
+	switch sc.HelloBad {
+	case "version":
+		hello = enc(atp.HelloMessage{Version: 99, Schema: ser})
+	case "schema":
+		hello = enc(atp.HelloMessage{Version: version, Schema: map[string]any{"steps": "not a map"}})
+	case "garbage":
+		hello = []byte{0xff, 0x00, 0x1c}
+	default:
+		hello = enc(atp.HelloMessage{Version: version, Schema: ser})
+	}
+	if sc.Fault != nil && sc.Fault.Hello {
+		applyFault(w.s2c, sc.Fault, 0)
+	}
+	// reader of the client's messages
+	go func() {
+		w.s.SetRole("env:reader")
+		dec := cbor.NewDecoder(sched.Duplex{In: w.c2s, Out: w.s2c})
+		var start any
+		if err := dec.Decode(&start); err != nil {
+			return
+		}
+		_, _ = w.s2c.Write(hello)
+		fs.mu.Lock()
+		fs.got["#hello"] = 1
+		fs.cond.Broadcast()
+		fs.mu.Unlock()
+		for {
+			if version == 1 {
+				var ws atp.WorkStartMessage
+				if err := dec.Decode(&ws); err != nil {
+					break
+				}
+				fs.mu.Lock()
+				fs.got["#v1"]++
+				fs.cond.Broadcast()
+				fs.mu.Unlock()
+				continue
+			}
+			var m atp.DecodedRuntimeMessage
+			if err := dec.Decode(&m); err != nil {
+				break
+			}
+			if m.MessageID == atp.MessageTypeWorkStart {
+				fs.mu.Lock()
+				fs.got[m.RunID]++
+				fs.cond.Broadcast()
+				fs.mu.Unlock()
+			}
+		}
+		fs.mu.Lock()
+		fs.inEOF = true
+		fs.cond.Broadcast()
+		fs.mu.Unlock()
+	}()
+	w.cli = atp.NewClientWithLogger(sched.Duplex{In: w.s2c, Out: w.c2s}, nil)
+	// handshake
+	hsErr := make(chan error, 1)
+	go func() {
+		_, err := w.cli.ReadSchema()
+		hsErr <- err
+	}()
+	// a corrupted length can make the decoder wait for bytes that never come: the stream then ends
+	go func() {
+		fs.mu.Lock()
+		for fs.got["#hello"] == 0 {
+			fs.cond.Wait()
+		}
+		fs.mu.Unlock()
+		time.Sleep(2 * time.Millisecond)
+		w.s.WaitSettled(stepTimeout)
+		select {
+		case err := <-hsErr:
+			hsErr <- err
+		default:
+			if sc.HelloBad != "" || (sc.Fault != nil && sc.Fault.Hello) {
+				w.s2c.CloseWrite()
+			}
+		}
+	}()
+	select {
+	case err := <-hsErr:
+		if err != nil {
+			res.Results["#schema"] = execResult{St: "err", Err: err.Error(), Returns: 1}
+			if sc.HelloBad == "" && (sc.Fault == nil || !sc.Fault.Hello) {
+				res.FollowErr = "handshake failed without a fault: " + err.Error()
+			}
+		} else {
+			res.Results["#schema"] = execResult{St: "ok", Returns: 1}
+		}
+	case <-time.After(10 * time.Second):
+		res.Stuck = true
+		res.StuckDetail = []string{"ReadSchema did not return"}
+		return
+	}
+	if res.Results["#schema"].St != "ok" {
+		return
+	}
+	w.s.WaitSettled(stepTimeout)
+	w.s.Reset()
+	if sc.Fault != nil && !sc.Fault.Hello {
+		applyFault(w.s2c, sc.Fault, int64(len(hello)))
+	}
+	g := sched.GoID()
+	w.s.SetRole("env:writer")
+	put := func(b []byte) {
+		fs.stream = append(fs.stream, b...)
+		fs.frames = append(fs.frames, append([]byte{}, b...))
+		_, _ = w.s2c.Write(b)
+	}
+	waitGot := func(key string) bool {
+		deadline := time.Now().Add(300 * time.Millisecond)
+		fs.mu.Lock()
+		defer fs.mu.Unlock()
+		for fs.got[key] == 0 && !fs.inEOF {
+			if time.Now().After(deadline) {
+				return false
+			}
+			fs.mu.Unlock()
+			time.Sleep(100 * time.Microsecond)
+			fs.mu.Lock()
+		}
+		return fs.got[key] > 0
+	}
+	wantClose := false
+	outClosed := false
+	v1pending := 0
+	for _, op := range sc.Ops {
+		switch op.Op {
+		case "exec":
+			rs := runSpec{ID: op.Run, Beh: "ok", Emit: op.Emit}
+			w.sc.Runs = append(w.sc.Runs, rs)
+			w.spawnCaller(op.Run)
+			if version == 1 {
+				v1pending++
+			}
+		case "reply":
+			key := op.Run
+			if version == 1 {
+				key = "#v1"
+			}
+			if outClosed || !waitGot(key) {
+				continue
+			}
+			if version == 1 {
+				put(enc(atp.WorkDoneMessage{StepID: "step", OutputID: "success", OutputData: map[string]any{"message": "hello " + op.Run}}))
+				fs.legit[op.Run] = true
+				continue
+			}
+			if op.Kind == "err" {
+				w.s.Emit(g, "f.reply", map[string]any{"run": op.Run, "kind": "err"})
+				put(enc(atp.RuntimeMessage{MessageID: atp.MessageTypeError, RunID: op.Run,
+					MessageData: atp.ErrorMessage{Error: "step failed", StepFatal: true}}))
+			} else {
+				w.s.Emit(g, "f.reply", map[string]any{"run": op.Run, "kind": "ok"})
+				fs.legit[op.Run] = true
+				put(enc(atp.RuntimeMessage{MessageID: atp.MessageTypeWorkDone, RunID: op.Run,
+					MessageData: atp.WorkDoneMessage{StepID: "step", OutputID: "success", OutputData: map[string]any{"message": "hello " + op.Run}}}))
+			}
+		case "unsol":
+			if outClosed {
+				continue
+			}
+			var m any
+			run := ""
+			switch op.Kind {
+			case "err_server":
+				m = atp.RuntimeMessage{MessageID: atp.MessageTypeError, RunID: "", MessageData: atp.ErrorMessage{Error: "fatal", StepFatal: true, ServerFatal: true}}
+			case "err_none":
+				m = atp.RuntimeMessage{MessageID: atp.MessageTypeError, RunID: "", MessageData: atp.ErrorMessage{Error: "note"}}
+			case "err_step":
+				m = atp.RuntimeMessage{MessageID: atp.MessageTypeError, RunID: "", MessageData: atp.ErrorMessage{Error: "step fatal without run", StepFatal: true}}
+			case "bad":
+				m = atp.RuntimeMessage{MessageID: 77, RunID: "", MessageData: map[string]any{}}
+			case "sig":
+				run = op.Run
+				m = atp.RuntimeMessage{MessageID: atp.MessageTypeSignal, RunID: op.Run, MessageData: atp.SignalMessage{SignalID: "sig", Data: map[string]any{"name": op.Run}}}
+			case "wd_dup":
+				run = op.Run
+				fs.legit[op.Run] = true
+				m = atp.RuntimeMessage{MessageID: atp.MessageTypeWorkDone, RunID: op.Run,
+					MessageData: atp.WorkDoneMessage{StepID: "step", OutputID: "success", OutputData: map[string]any{"message": "dup"}}}
+			}
+			w.s.Emit(g, "f.unsol", map[string]any{"kind": op.Kind, "run": run})
+			put(enc(m))
+		case "garbage":
+			if outClosed {
+				continue
+			}
+			w.s.Emit(g, "f.garbage", map[string]any{})
+			put([]byte{0xff, 0x1c, 0x1c, 0x00})
+		case "partial":
+			if outClosed || !waitGot(op.Run) {
+				continue
+			}
+			b := enc(atp.RuntimeMessage{MessageID: atp.MessageTypeWorkDone, RunID: op.Run,
+				MessageData: atp.WorkDoneMessage{StepID: "step", OutputID: "success", OutputData: map[string]any{"message": "hello " + op.Run}}})
+			w.s.Emit(g, "f.partial", map[string]any{"run": op.Run})
+			put(b[:len(b)/2])
+			w.s2c.CloseWrite()
+			outClosed = true
+		case "close_out":
+			if !outClosed {
+				w.s.Emit(g, "f.close_out", map[string]any{})
+				if op.Kind == "ioerr" {
+					w.s2c.CutErr = sched.ErrInjected
+				}
+				w.s2c.CloseWrite()
+				outClosed = true
+			}
+		case "close_in":
+			w.c2s.CloseRead()
+		case "close":
+			wantClose = true
+			w.spawnClose()
+		}
+		w.s.WaitSettled(stepTimeout)
+	}
+	// the stream always ends eventually
+	if !outClosed {
+		w.s.WaitSettled(stepTimeout)
+		w.s.Emit(g, "f.close_out", map[string]any{})
+		w.s2c.CloseWrite()
+	}
+	w.c2s.CloseRead() // nobody reads the client's messages any more: its writes fail instead of blocking
+	// wait for every call to return, or a structural deadlock
+	callersDone := make(chan struct{})
+	go func() { w.callWG.Wait(); close(callersDone) }()
+	deadline := time.Now().Add(20 * time.Second)
+	cDone, clDone := false, !wantClose
+	quiet := 0
+	for !(cDone && clDone) {
+		select {
+		case <-callersDone:
+			cDone = true
+			callersDone = nil
+		case err := <-w.closeC:
+			clDone = true
+			res.CloseRet = true
+			if err != nil {
+				res.CloseErr = err.Error()
+			}
+		case <-time.After(300 * time.Microsecond):
+			if sched.Settled() {
+				quiet++
+			} else {
+				quiet = 0
+			}
+			if quiet >= 30 || time.Now().After(deadline) {
+				res.Stuck = true
+				for _, g := range sched.BlockedSDK() {
+					res.StuckDetail = append(res.StuckDetail, fmt.Sprintf("%s [%s] %s", w.s.Role(g.ID), g.State, strings.TrimSpace(g.Top)))
+				}
+				sort.Strings(res.StuckDetail)
+				cDone, clDone = true, true
+			}
+		}
+	}
+	w.mu.Lock()
+	for id, e := range w.res {
+		res.Results[id] = *e
+	}
+	w.mu.Unlock()
+	res.Events = w.s.Events()
+	// independent decode of what the client could have read: which runs have an intact work-done
+	res.Received = independentDecode(fs.frames, sc.Fault, version)
+	res.StreamLen = len(fs.stream)
+}
+
+// applyFault arms the pipe with a positional fault (offset relative to base)
+func applyFault(p *sched.Pipe, f *faultSpec, base int64) {
+	switch f.Kind {
+	case "eof":
+		p.CutAfter = base + f.At
+		if p.CutAfter == 0 {
+			p.CutAfter = -1
+		}
+	case "ioerr":
+		p.CutAfter = base + f.At
+		if p.CutAfter == 0 {
+			p.CutAfter = -1
+		}
+		p.CutErr = sched.ErrInjected
+	case "corrupt":
+		p.FlipAt = base + f.At
+	}
+}
+
+// independentDecode decides, message by message and independently of the client, which work-done messages
+// survive the fault intact: a message lying entirely before a cut, or whose bytes - with the inverted byte
+// applied if it falls inside - still decode to a well-formed work-done. Result: "wd:<run>" per such message.
+func independentDecode(frames [][]byte, f *faultSpec, version int64) []string {
+	out := []string{}
+	off := int64(0)
+	for _, fr := range frames {
+		b := append([]byte{}, fr...)
+		start, end := off, off+int64(len(fr))
+		off = end
+		if f != nil && !f.Hello {
+			switch f.Kind {
+			case "eof", "ioerr":
+				if f.At < end {
+					continue // cut before the end of this message
+				}
+			case "corrupt":
+				if f.At >= start && f.At < end {
+					b[f.At-start] ^= 0xff
+				}
+			}
+		}
+		if version == 1 {
+			var m atp.WorkDoneMessage
+			if cbor.Unmarshal(b, &m) == nil {
+				out = append(out, "wd:#v1")
+			}
+			continue
+		}
+		var m atp.DecodedRuntimeMessage
+		if cbor.Unmarshal(b, &m) != nil {
+			continue
+		}
+		if m.MessageID == atp.MessageTypeWorkDone {
+			var wd atp.WorkDoneMessage
+			if cbor.Unmarshal(m.RawMessageData, &wd) == nil {
+				out = append(out, "wd:"+m.RunID)
+			}
+		}
+	}
+	return out
 }
 
 func handle(raw json.RawMessage) any {
